@@ -62,7 +62,7 @@ def oracle_c01(ctx, case, impl_line, spec_line, strict_rejects=True):
     return None
 
 
-def gen_cases(ctx, n, nops_lo, nops_hi, big_cache=True, small_cache=False, restarts=0, p_reject=0.0, finals=FINAL):
+def gen_cases(ctx, n, nops_lo, nops_hi, big_cache=True, small_cache=False, restarts=0, p_reject=0.0, finals=FINAL, partial_batches=True):
     """K-seq runs in lock step with the worker (wait_worker_idle after every call), which is
     deterministic only if the worker cannot run in the middle of a call: a multi-entry
     append that rotates a chunk hands requests to the worker while it is still appending.
@@ -77,7 +77,7 @@ def gen_cases(ctx, n, nops_lo, nops_hi, big_cache=True, small_cache=False, resta
         nr = rnd.randint(1, restarts) if restarts else 0
         cfgs = [gen.rand_cfg(rnd, big_cache=big_cache, small_cache=small_cache) for _ in range(nr)]
         rot = any(gen.cfg_rotates(c) for c in [cfg] + cfgs)
-        ops, st, sim = gen.gen_history(rnd, nops, p_reject=p_reject, max_batch=1 if rot else 4)
+        ops, st, sim = gen.gen_history(rnd, nops, p_reject=p_reject, max_batch=1 if rot else 4, partial_batches=partial_batches)
         for k, v in st.items():
             ctx.count("ops_" + k, v)
         # restarts with a freshly drawn configuration: flush first (clean restart)
@@ -479,7 +479,7 @@ def run_C11(ctx):
     core.builds()
     n = ctx.scale(500, 5000)
     cases = corpus("C11") + gen_cases(ctx, n, 5, ctx.scale(60, 250), big_cache=False, p_reject=0.08,
-                                      finals=["F 1", "I", "G", "Z", "W", "K"])
+                                      finals=["F 1", "I", "G", "Z", "W", "K"], partial_batches=False)   # (the layout oracle counts one record per call answered Ok)
     # half of the histories go through one or two clean restarts under the SAME limits: the
     # journal must go on exactly as if there had been none (a re-opened chunk is closed at its limit too)
     rr = ctx.rnd
@@ -502,6 +502,46 @@ def run_C11(ctx):
             if bad <= 3:
                 ctx.fail("oracle", "C11 oracle: " + why, dict(kind="seq", case=c, detail=why))
     ctx.k_checks["oracle-journal-layout"] = (bad == 0, len(cases))
+    # the same layout facts after a chunk rotation that failed on the caller thread (the next
+    # file could not be created) and the writes that followed: judged on the implementation alone
+    import p_trace, p_recover
+    fcases = p_trace.failed_rotation_cases(ctx.rnd, ctx.scale(10, 60), ["snap"])
+    flogs = p_trace.run_traces(fcases, ctx.wd, "c11c")
+    badf = 0
+    for c, l in zip(fcases, flogs):
+        ev = [e.strip() for e in l.split(" ; ")]
+        snaps = [e for e in ev if e.startswith("c snap disk")]
+        why = None
+        if not snaps:
+            why = "no snapshot: " + l[:80]
+        else:
+            disk = p_recover.parse_disk("disk " + snaps[-1].split("snap disk", 1)[1])
+            try:
+                files = [(fid, data, pydec.decode_all(data)) for fid, data in disk]
+            except Exception as e:
+                files, why = [], "a chunk file does not parse: %r" % (e,)
+            for j in range(len(files) - 1):
+                if files[j + 1][0] != files[j][0] + len(files[j][1]):
+                    why = "files do not abut: %d + %d != %d" % (files[j][0], len(files[j][1]), files[j + 1][0])
+            bounds = set()
+            for fid, data, rs in files:
+                if not rs or rs[0][0][0] != "S":
+                    why = why or "file %d does not start with a state snapshot" % fid
+                for (r, o, ln) in rs:
+                    bounds.add((fid + o, ln))
+            call = None
+            for e in ev:
+                if e.startswith("c call "):
+                    call = e[7:]
+                elif e.startswith("c ret ok ") and call and call[0] in "VATPCU":
+                    t = e.split()
+                    if (int(t[3]), int(t[4])) not in bounds:
+                        why = why or "the segment (%s,%s) returned by `%s` is not a record of the journal on disk" % (t[3], t[4], call[:40])
+        if why:
+            badf += 1
+            if badf <= 3:
+                ctx.fail("oracle", "C11 oracle: after a failed rotation: " + why, dict(kind="trace", case=c, trace=l[:3000]))
+    ctx.k_checks["oracle-journal-layout-after-failed-rotation"] = (badf == 0, len(fcases))
     # the standalone Dump on the flushed, idle directory lists what RaftLog::dump() listed
     # (theorem C11_dump_after_flush_idle), without an error item
     dcases, dwant = [], []
@@ -586,9 +626,37 @@ core.register("C02", "Props.C02", "theories/Props/C02.vo",
               ["C02_restart", "C02_restart_continue", "C02_restart_cycles"])
 
 
+def failed_rotation_restart(ctx):
+    """C02 where a chunk rotation failed on the caller thread (the next file could not be
+    created): after flush, idle, drop and reopen the store shows what it showed before.
+    The model has no caller-side I/O failure: judged on the implementation alone."""
+    import p_trace
+    cases = p_trace.failed_rotation_cases(ctx.rnd, ctx.scale(10, 60), ["G", "R 0 100000", "drop", "open CFG", "G", "R 0 100000"])
+    logs = p_trace.run_traces(cases, ctx.wd, "c02c")
+    bad = 0
+    for c, l in zip(cases, logs):
+        ev = [e.strip() for e in l.split(" ; ")]
+        why = None
+        if l in ("hang", "harness-panic") or "c panic" in ev:
+            why = "panic or hang: " + l[:80]
+        elif any(e.startswith("c openerr") for e in ev[2:]):
+            why = "the directory does not reopen after a failed rotation: " + [e for e in ev[2:] if e.startswith("c openerr")][0]
+        else:
+            stats = [state_of_stat(e) for e in ev if e.startswith("c ret stat ")]
+            reads = [e for e in ev if e.startswith("c ret read ")]
+            if len(stats) >= 2 and len(reads) >= 2 and (stats[-1] != stats[-2] or reads[-1] != reads[-2]):
+                why = "state or entries differ across the restart: before `%s %s` after `%s %s`" % (stats[-2], reads[-2][:200], stats[-1], reads[-1][:200])
+        if why:
+            bad += 1
+            if bad <= 3:
+                ctx.fail("oracle", "C02 oracle: " + why, dict(kind="trace", case=c, trace=l[:3000]))
+    ctx.k_checks["oracle-restart-after-failed-rotation"] = (bad == 0, len(cases))
+
+
 def run_C02(ctx):
     proof = core.proof_stage("C02")
     core.builds()
+    failed_rotation_restart(ctx)
     n = ctx.scale(400, 4000)
     cases = corpus("C02") + gen_cases(ctx, n, 5, ctx.scale(60, 250), big_cache=True, p_reject=0.05, restarts=4,
                                       finals=["F 1", "I", "W", "G", "R 0 100000", "D", "K",
